@@ -184,5 +184,55 @@ def unit_halt(unit):
     return _report(run, unit, t0, status, err, kinds)
 
 
+def unit_reti(unit):
+    """End of a handler: the step that executes RETI (cut by its contract) leaves the handler state and
+    does not lose a request that became pending while the handler ran."""
+    PE, RN = _setup()
+    t0 = time.time()
+    run = core.Run(max_paths=3000, wall_s=500)
+
+    class _RetiInfo:
+        class RETI:
+            @staticmethod
+            def length():
+                return 1
+
+            @staticmethod
+            def render():
+                return []
+
+            @staticmethod
+            def name():
+                return "RETI"
+        instruction = RETI()
+
+    def body(eng):
+        emu, st = build(eng, PE, RN, in_interrupt=True)
+        pend = core._b(st["pend"])
+
+        def stub_exec(pc):
+            st["seen"].append(dict(pc=pc, s=emu.cpu.regs.get(RN.S), mem=st["buf"].arr))
+            return _RetiInfo()
+        emu.cpu.execute_instruction = stub_exec
+        emu.cpu.decode_instruction = lambda pc: _RetiInfo.instruction
+        emu.step()
+        P = lambda n, c, d=None: eng.prove(n, c, detail=d)
+        P("reti:executes-the-instruction", z3.BoolVal(len(st["seen"]) == 1))
+        P("reti:leaves-handler-state", z3.BoolVal(emu._in_interrupt is False), "after RETI the emulator is no longer inside a handler")
+        P("reti:pending-request-kept", z3.Implies(pend, core._b(emu._irq_pending)),
+          "a request that became pending while the handler ran is still pending after RETI (not lost)")
+        P("reti:no-delivery-in-the-same-step", T(emu.cpu.regs.get(RN.S)) == T(st["S"]), "delivery happens at the next step boundary, nothing is pushed by this step")
+        return "reti"
+
+    status, err = "ok", None
+    try:
+        core.explore(body, run=run)
+    except core.Undecided as e:
+        status, err = "undecided", str(e)
+    except core.EngineError as e:
+        status, err = "engine-error", str(e)
+    return _report(run, unit, t0, status, err, {"paths": len(run.results)})
+
+
 def unit_any(unit):
     return globals()[unit["fn"]](unit)
